@@ -12,6 +12,7 @@
 From ToughV Require Export Model.Base Model.Pct Model.Sig Model.Glob Model.Deleg Model.Client Model.Cache.
 From ToughV Require Import Proofs.BaseP Proofs.PctP Proofs.SitesP.
 From ToughV Require Export Proofs.ClientP Proofs.SrvExtP Proofs.CacheP.
+From ToughV Require Export Model.Stream Model.Read Model.TName Model.Save Proofs.StreamP Proofs.TNameP Proofs.CacheTargetP.
 From Coq Require Import ZifyBool ZifyN ZifyNat Lia.
 
 (* the files the cache copies as timestamp, snapshot and targets are - on an unchanged server - the
@@ -116,3 +117,23 @@ Example C19_copy_loads_example :
     /\ (exists w'', run_cycle fixed (copy_cycle ex_cyc (CRoot (rp_root rp)) (cache_names rp false)) store0 = (Ok rp, w'')).
 Proof. exact copy_loads_example. Qed.
 Print Assumptions C19_copy_loads_example.
+
+(* The targets half: a target the cache stored (Repository::cache_target = save_target, digest-prefixed under
+   consistent snapshots) is, at its destination inside the targets directory, exactly the content the signed
+   metadata names - byte for byte what the source served - every other file is untouched, and reading the stored
+   file back through the verifying adapters delivers it intact whatever transport and chunking the copy is read
+   with: "every requested target reads back byte-identical to the original". *)
+Theorem C19_cached_target_reads_back : forall (H : bytes -> N) fx cfg now rp tsrv n prefix outdir f w f' w' ti,
+  save_target H fx cfg now rp tsrv n prefix outdir f w = (Ok tt, f', w') ->
+  find_target n (rp_targets rp) = Some ti -> ti_len ti < u64max' ->
+  exists dest d,
+    save_path outdir (if prefix then ti_hex ti ++ [46] ++ tn_resolved n else tn_resolved n) = inr dest
+    /\ fs_get dest (fs_files f') = Some d
+    /\ H d = ti_digest ti /\ N.of_nat (length d) <= ti_len ti
+    /\ (exists s, tlookup (if r_cs (rp_root rp) then Some (ti_digest ti) else None, tn_resolved n) tsrv = TStream s
+                  /\ d = chunk_bytes s)
+    /\ (forall p, paths_eqb p dest = false -> fs_get p (fs_files f') = fs_get p (fs_files f))
+    /\ (forall chunks, Forall is_chunk chunks -> chunk_bytes chunks = d ->
+                       consume (fetch_sha256 H (ti_len ti) (ti_digest ti) chunks) = (d, true)).
+Proof. exact cached_target_reads_back. Qed.
+Print Assumptions C19_cached_target_reads_back.
